@@ -201,6 +201,29 @@ Theorem charge_covers_alloc :
 Proof. exact charge_covers_alloc_lemma. Qed.
 Print Assumptions charge_covers_alloc.
 
+(* JBIG2: the translated workLimit - between 64 Mi and 512 Mi pixel operations, at most
+   64 Mi + 4096 per input byte, monotone, for all int64 lengths - and the work cell: the
+   per-pixel loops that are allowed to run never add up to more than the limit *)
+Theorem jbig2_work_bound :
+  (forall n, int64 n -> (67108864 <= jbig2_workLimit n <= 536870912)%Z /\
+                        (jbig2_workLimit n <= 67108864 + 4096 * Z.max n 0)%Z) /\
+  (forall a b, int64 a -> int64 b -> (a <= b)%Z -> (jbig2_workLimit a <= jbig2_workLimit b)%Z) /\
+  (forall limit regions, (0 <= limit)%Z -> Forall (fun p => (0 <= p)%Z) regions ->
+     (0 <= fst (run_sites limit (map work_site regions)) <= limit)%Z).
+Proof. exact (conj (proj1 workLimit_props) (conj (proj2 workLimit_props) work_discipline)). Qed.
+Print Assumptions jbig2_work_bound.
+
+(* a whole chain: charged buffers within StreamBudget(rawLen) <= 264 MiB, uncharged tables <= 160 KiB *)
+Theorem chain_memory_bound :
+  forall (ss : list stage) (raw : bytes),
+  (length ss <= 8)%nat -> (Z.of_nat (length raw) < 2 ^ 63)%Z ->
+  let budget := StreamBudget (Z.of_nat (length raw)) in
+  (0 <= fst (run_sites budget (chain_sites ss)) <= budget)%Z /\
+  (budget <= 8388608 + 268435456)%Z /\
+  (0 <= chain_fixed ss <= 163840)%Z.
+Proof. exact chain_memory. Qed.
+Print Assumptions chain_memory_bound.
+
 (* ---- CCITT: rows and the row cap, for every body, table content and reference line ---- *)
 Theorem ccitt_row_cap :
   forall cols maxrows, (0 <= cols)%Z -> (1 <= maxrows)%Z -> forall rows numrows,
